@@ -11,6 +11,7 @@ Inductive keyform :=
 
 (* how DrawRelation builds the alias of the table a foreign-key field points to *)
 Inductive targetform :=
+| TargetAppTable   (* UniqueVarForAppName(<app>, JoinTypePath(path[:len(path)-1])) : every element but the column (fix C15-7) *)
 | TargetAppPath    (* UniqueVarForAppName(<app>, ref.Path[0]) *)
 | TargetPathOnly   (* UniqueVarForAppName(ref.Path[0]) *)
 | UnknownTarget.
@@ -27,12 +28,20 @@ Inductive dkind := KRelation | KTuple | KPrimitive | KEnum | KUnknown.
 
 (* the test by which GenerateDataView keeps an entity in a per-application view (dataParam.Epname) *)
 Inductive viewtest :=
+| ViewAppsMember   (* !viewApps[entityApps[entityName]] -> continue : the entity's own application is one of the view's (fixes C15-3, C15-9) *)
 | ViewAppEq        (* strings.Split(entityName, ".")[0] != appName  -> continue : equality of the application part *)
 | UnknownView.     (* anything else (a prefix test, a different operand, ...) *)
+
+(* the application DrawRelation takes for a foreign key written without one *)
+Inductive relapp :=
+| RelAppParam      (* entityApp := viewParam.EntityApp : the application the table belongs to (fix C15-4) *)
+| RelAppFirstToken (* entityApp := entityTokens[0]     : the first '.'-chunk of App.Type *)
+| UnknownRelApp.
 
 Record shape := {
   sh_rel_key : keyform; sh_prim_key : keyform; sh_tuple_key : keyform; sh_enum_key : keyform;
   sh_rel_target : targetform;
+  sh_rel_app : relapp;
   sh_rel_guards_short_path : bool;  (* DrawRelation tests len(ref.Path) < 2 before indexing Path[0] / Path[1] *)
   sh_rel_checks_target : bool;      (* DrawRelation skips the relationship when viewParam.Types has no such table *)
   sh_rel_count_new : countop; sh_rel_count_again : countop;
